@@ -5,11 +5,14 @@ Model of how a numeric constant in FPy source becomes a number (property C06).
   matchers that accept exactly what `re.fullmatch` accepts), `_sci_to_fraction`,
   `decnum_to_fraction`, `hexnum_to_fraction`, `digits_to_fraction`.
 * `fpy2/ast/fpyast.py`: `Decnum/Hexnum/Integer/Rational/Digits` with `as_rational`, `as_real`.
-* `fpy2/frontend/parser.py`: `_parse_constant` / `_parse_float_constant` / `_float_literal_text`
-  (the text of a float literal is re-read from the parsed source and normalised to a `Decnum`
-  spelling), `_parse_unaryop` (negated-zero fold), `_parse_integer_arg`,
+* `fpy2/frontend/parser.py`: `_parse_constant` (a Python `float` constant is re-stringified with
+  `str(float)`: finding F5, not repaired), `_parse_unaryop` (negated-zero fold), `_parse_integer_arg`,
   `_parse_hexfloat/_rational/_digits`.
-* CPython: the tokenizer's numeric literal (digit groups with `_` separators, `e`/`E`, radix prefixes).
+* CPython: the tokenizer's numeric literal (digit groups with `_` separators, `e`/`E`, radix
+  prefixes), `float(literal)` = round-to-nearest-even to binary64 (modelled with `Ctx.round` of the
+  IEEE(11,64) context), `str(float)` = shortest round-trip digits.
+* `parseFloatRepaired`: what `_parse_constant` would do if it re-read the literal's text from the
+  parsed source (the proposed repair of F5; not the current code).
 
 Strings are `List Char` here (the `String` API wraps `toList`), so that the kernel can evaluate
 the model on concrete spellings.  Core Lean only.
@@ -233,6 +236,116 @@ def Node.evalReal : Node → Except LErr LitVal
     | .rat r => pure (if r == 0 then .negZero else .rat (-r))
   | n => n.asReal
 
+/-! ### binary64 and `repr(float)` -/
+
+/-- the IEEE 754 binary64 context, round to nearest even, overflow to infinity -/
+def fp64 : Ctx :=
+  .efloat { es := 11, nbits := 64, inf := true, kind := .ieee, eoff := 0, rm := .rne, ov := .overflow,
+            k := some 0, nanValue := none, infValue := none }
+
+/-- `float(<decimal literal>)`: the exact rational of the spelling rounded once to binary64 -/
+def toF64 (r : Rat) : FV :=
+  match fp64.round (.frac r.num r.den) with
+  | .ok res => res.v
+  | .error _ => .nan false
+
+def natDigitsAux : Nat → Nat → List Char → List Char
+  | 0, _, acc => acc
+  | fuel + 1, n, acc =>
+    let acc := Char.ofNat (48 + n % 10) :: acc
+    if n < 10 then acc else natDigitsAux fuel (n / 10) acc
+
+/-- decimal digits of a natural number (`str(n)`) -/
+def natDigits (n : Nat) : List Char := natDigitsAux (n.log2 + 1) n []
+
+/-- `num/den ≥ 10^k` -/
+def geP10 (num den : Nat) (k : Int) : Bool :=
+  if k ≥ 0 then num ≥ den * 10 ^ k.toNat else num * 10 ^ (-k).toNat ≥ den
+
+/-- the decimal point position `k` of a positive rational: `10^(k-1) ≤ num/den < 10^k` -/
+def decPoint (num den : Nat) : Int :=
+  let est : Int := (((bitLength num : Int) - (bitLength den : Int)) * 30103) / 100000
+  -- the estimate is within 1 of the answer; walk to it
+  let k := est - 2
+  let k := if geP10 num den (k + 1) then k + 1 else k
+  let k := if geP10 num den (k + 1) then k + 1 else k
+  let k := if geP10 num den (k + 1) then k + 1 else k
+  let k := if geP10 num den (k + 1) then k + 1 else k
+  k + 1
+
+def stripZerosAux : Nat → Nat → Nat
+  | 0, n => n
+  | fuel + 1, n => if n != 0 && n % 10 == 0 then stripZerosAux fuel (n / 10) else n
+
+/-- one step of the shortest-digits search: the `n`-digit decimals just below and just above
+`num/den`; the one that reads back as `x` (the nearer one if both do) -/
+def shortestAt (x : RF) (num den : Nat) (k : Int) (n : Nat) : Option (Nat × Int) :=
+  -- scaled = num/den * 10^(n-k)
+  let sh : Int := (n : Int) - k
+  let (a, b) : Nat × Nat := if sh ≥ 0 then (num * 10 ^ sh.toNat, den) else (num, den * 10 ^ (-sh).toNat)
+  let lo := a / b
+  let hi := lo + 1
+  let back (d : Nat) : Bool :=
+    let r : Rat := if sh ≥ 0 then (d : Rat) / ((10 ^ sh.toNat : Nat) : Rat) else ((d * 10 ^ (-sh).toNat : Nat) : Rat)
+    match toF64 r with
+    | .fin y => y.beqVal x
+    | _ => false
+  let okLo := lo != 0 && back lo
+  let okHi := back hi
+  -- distance of lo, hi to the value, in units of 1/b: a - lo*b, hi*b - a
+  let pick : Option Nat :=
+    if okLo && okHi then
+      (if a - lo * b < hi * b - a then some lo
+       else if a - lo * b > hi * b - a then some hi
+       else some (if lo % 2 == 0 then lo else hi))
+    else if okLo then some lo
+    else if okHi then some hi
+    else none
+  pick.map (fun d => (d, k - n))
+
+def shortestLoop (x : RF) (num den : Nat) (k : Int) : Nat → Nat → Option (Nat × Int)
+  | 0, _ => none
+  | fuel + 1, n =>
+    match shortestAt x num den k n with
+    | some r => some r
+    | none => shortestLoop x num den k fuel (n + 1)
+
+/-- shortest decimal `(D, e10)` with `D·10^e10` reading back as the positive binary64 number `x`
+(David Gay's mode 0, which `repr(float)` uses) -/
+def shortest (x : RF) : Nat × Int :=
+  let (num, den) : Nat × Nat := if x.exp ≥ 0 then (x.c * 2 ^ x.exp.toNat, 1) else (x.c, 2 ^ (-x.exp).toNat)
+  let k := decPoint num den
+  match shortestLoop x num den k 17 1 with
+  | some (d, e) =>
+    let d' := stripZerosAux 20 d
+    let z := (natDigits d).length - (natDigits d').length
+    (d', e + z)
+  | none => (0, 0)
+
+def zeros (n : Nat) : List Char := List.replicate n '0'
+
+/-- `repr(x)` / `str(x)` of a positive finite float (`float_repr_style == 'short'`, format code `'r'`) -/
+def reprPos (x : RF) : List Char :=
+  let (d, e10) := shortest x
+  let ds := natDigits d
+  let n := ds.length
+  let decpt : Int := e10 + n
+  if decpt ≤ -4 || decpt > 16 then
+    let e := decpt - 1
+    let ed := natDigits e.natAbs
+    let ed := if ed.length < 2 then '0' :: ed else ed
+    ds.take 1 ++ (if n > 1 then '.' :: ds.drop 1 else []) ++ 'e' :: (if e < 0 then '-' else '+') :: ed
+  else if decpt ≤ 0 then '0' :: '.' :: zeros (-decpt).toNat ++ ds
+  else if decpt ≥ n then ds ++ zeros (decpt.toNat - n) ++ ['.', '0']
+  else ds.take decpt.toNat ++ '.' :: ds.drop decpt.toNat
+
+/-- `str(v)` for a Python float -/
+def reprFloat : FV → List Char
+  | .nan _ => ['n', 'a', 'n']
+  | .inf s => (if s then ['-'] else []) ++ ['i', 'n', 'f']
+  | .fin x =>
+    (if x.s then ['-'] else []) ++ (if x.c = 0 then ['0', '.', '0'] else reprPos { x with s := false })
+
 /-! ### the Python tokenizer's numeric literal -/
 
 /-- the `ast.Constant` of a numeric token.  For a float the digit groups are kept as written
@@ -335,34 +448,59 @@ def pyNumber (cs : List Char) : Except LErr PyConst :=
 
 /-! ### the FPy front end -/
 
-/-- `Parser._float_literal_text`: the literal's text normalised to a `Decnum` spelling
+/-- the exact rational a float token spells (digit groups without separators, exponent text) -/
+def floatRat (ip fp : List Char) (ex : Option (List Char)) : Rat :=
+  let m : Nat := horner 10 (ip ++ fp)
+  let e : Int := match ex with
+    | none => 0
+    | some ('-' :: ds) => -(horner 10 ds : Int)
+    | some ('+' :: ds) => (horner 10 ds : Int)
+    | some ds => (horner 10 ds : Int)
+  let sc : Int := e - fp.length
+  if sc ≥ 0 then ((m * 10 ^ sc.toNat : Nat) : Rat) else (m : Rat) / ((10 ^ (-sc).toNat : Nat) : Rat)
+
+/-- the Python `float` a float token compiles to: its spelling rounded once to binary64 -/
+def floatValue (ip fp : List Char) (ex : Option (List Char)) : FV := toF64 (floatRat ip fp ex)
+
+/-- `Parser._parse_constant` on a `float`: an `Integer` if the double is integral, else a
+`Decnum` of `str(value)` -/
+def parseFloatLegacy (v : FV) : Node :=
+  match v with
+  | .fin x =>
+    match x.toInt? with
+    | some i => .integer i
+    | none => .decnum (reprFloat v)
+  | _ => .decnum (reprFloat v)
+
+/-- `Parser._parse_constant` on a numeric `ast.Constant` (current code) -/
+def parseConstant : PyConst → Except LErr Node
+  | .int n => .ok (.integer n)
+  | .float ip fp ex => .ok (parseFloatLegacy (floatValue ip fp ex))
+  | .imag => .error .parse
+
+/-! #### the proposed repair of F5 (not the current code) -/
+
+/-- the literal's text normalised to a `Decnum` spelling
 (digits on both sides of the point, lowercase `e`) -/
 def floatText (ip fp : List Char) (ex : Option (List Char)) : List Char :=
   (if ip.isEmpty then ['0'] else ip) ++ '.' :: (if fp.isEmpty then ['0'] else fp) ++
     (match ex with | some e => 'e' :: e | none => [])
 
-/-- `_MAX_EXPONENT_DIGITS` -/
 def maxExponentDigits : Nat := 6
 
 /-- `len(exp.lstrip('+-').lstrip('0'))` -/
 def expDigits (e : List Char) : Nat :=
   ((e.dropWhile (fun c => c == '+' || c == '-')).dropWhile (· == '0')).length
 
-/-- `Parser._parse_float_constant`: the exponent may have at most 6 significant digits, the value
-is that of the spelling (a `ValueError` of `int()`'s digit limit becomes a parse error);
-an integral value is an `Integer`, any other a `Decnum` of the normalised text -/
-def parseFloat (ip fp : List Char) (ex : Option (List Char)) : Except LErr Node :=
+/-- the repaired `_parse_constant` on a float token: re-read the text; the exponent may have at
+most 6 significant digits; the value is that of the spelling (a `ValueError` of `int()`'s digit
+limit becomes a parse error); an integral value is an `Integer`, any other a `Decnum` of the text -/
+def parseFloatRepaired (ip fp : List Char) (ex : Option (List Char)) : Except LErr Node :=
   let text := floatText ip fp ex
   if expDigits (ex.getD []) > maxExponentDigits then .error .parse
   else match decnum text with
     | .error _ => .error .parse
     | .ok v => if v.den == 1 then .ok (.integer v.num) else .ok (.decnum text)
-
-/-- `Parser._parse_constant` on a numeric `ast.Constant` -/
-def parseConstant : PyConst → Except LErr Node
-  | .int n => .ok (.integer n)
-  | .float ip fp ex => parseFloat ip fp ex
-  | .imag => .error .parse
 
 /-- source expressions that denote constants -/
 inductive Src
@@ -418,6 +556,12 @@ def parseExpr : Src → Except LErr Node
 
 /-- what `return <expr>` evaluates to under `fp.REAL` -/
 def frontValue (e : Src) : Except LErr LitVal := do (← parseExpr e).evalReal
+
+/-- value under the real context of a numeric token *with the repaired* `_parse_constant` -/
+def frontValueRepaired (cs : List Char) : Except LErr LitVal := do
+  match (← pyNumber cs) with
+  | .float ip fp ex => (← parseFloatRepaired ip fp ex).evalReal
+  | c => (← parseConstant c).evalReal
 
 /-- `round(<literal>)` under a context: the literal's exact value rounded once -/
 def LitVal.operand : LitVal → Operand
